@@ -19,7 +19,7 @@ def c02_shapes(tier):
 def c01_shapes(tier):
     # (nrules, class1, class2, class3, k)
     if tier == 'quick':
-        return [(1, 0, 0, 0, 3), (1, 3, 0, 0, 2), (1, 6, 0, 0, 2), (2, 0, 7, 0, 2)]
+        return [(1, 0, 0, 0, 3), (1, 3, 0, 0, 2), (1, 6, 0, 0, 3), (2, 0, 7, 0, 2), (1, 5, 0, 0, 2)]
     out = []
     for c in range(10):
         out.append((1, c, 0, 0, 3))
@@ -33,7 +33,7 @@ def c03_shapes(tier):
     # (strategy, breakers, buckets, depth, retry class, -, -, full chain)
     if tier == 'quick':
         out = [(st, 1, 1, 5, 0, 0, 0, 0) for st in (0, 1, 2)]
-        out += [(1, 2, 1, 4, 0, 0, 0, 0), (0, 1, 2, 4, 1, 0, 0, 0), (2, 1, 1, 3, 0, 0, 0, 1)]
+        out += [(1, 2, 1, 4, 0, 0, 0, 0), (0, 1, 2, 4, 1, 0, 0, 0), (2, 1, 2, 6, 0, 0, 0, 0), (2, 1, 1, 3, 0, 0, 0, 1)]
         return out
     out = []
     for st in (0, 1, 2):
@@ -83,12 +83,12 @@ def c07f_shapes(tier):
 def c07h_shapes(tier):
     # (q, d, max queue ms, k, values, -,-, full chain)
     if tier == 'quick':
-        return [(2, 1, 500, 4, 2), (1, 1, 2000, 4, 1), (10, 2, 50, 4, 2), (0, 1, 500, 2, 1), (2, 1, 500, 2, 1, 0, 0, 1)]
+        return [(2, 1, 500, 4, 2), (1, 1, 2000, 4, 1), (10, 2, 50, 4, 2), (0, 1, 500, 2, 1), (600, 1, 20, 3, 1), (7, 1, 100, 3, 1), (2, 1, 500, 2, 1, 0, 0, 1)]
     out = []
-    for q in (1, 2, 3, 10):
+    for q in (1, 2, 3, 7, 10, 150, 600):
         for d in (1, 3):
             for mq in (0, 50, 2000):
-                out.append((q, d, mq, 6, 2))
+                out.append((q, d, mq, 5, 2))
     out += [(0, 1, 500, 3, 2), (2, 1, 500, 3, 2, 0, 0, 1)]
     return out
 
@@ -307,7 +307,7 @@ PROPS = {
         'level': 'model_checking',
         'bounds': 'flow throttling: rate in {0,1,2,3,10,1000} per {100,1000,10000} ms, max queueing in {0,50,500,2000} ms, k<=4 (quick)/5 requests, arrival instants symbolic in ns '
                   '(gaps in [0, 3 I/r + Q]), batch in [1,3]; pace compared with 1 ns slack per request (the implementation computes it in f64). '
-                  'hotspot throttling: q in {0,1,2,3,10} per 1-3 s, max queueing {0,50,500,2000} ms, 1-2 values, batch in [1,2], ms clock, 1 ms rounding slack',
+                  'hotspot throttling: q in {0,1,2,3,7,10,150,600} per 1-3 s, max queueing {0,50,500,2000} ms, 1-2 values, batch in [1,2], ms clock, 1 ms rounding slack',
         'assumptions': ['virtual clock: sleep_for_ns/sleep_for_ms advance it, so "the caller was held" = the clock moved by at least the promised wait',
                         'chains of the real prepare slot plus the real flow (hotspot) slot; one shape per family uses the complete global chain'],
         'scenarios': [
